@@ -987,6 +987,70 @@ def verifyChainR (C : Crypto) (root : List Tx → List Nat) (reg : Option (List 
       if g.header.txRoot ≠ root g.txs then some .txRoot
       else verifyFromR C root reg c.store g 1 c.height
 
+/-! ### `find_and_merge_orthogonal` with the transition validator (non-empty global codebook)
+
+`commitStep` above models auto-merge with the DEFAULT (empty) codebook, where every candidate that can be marked
+`Committing` is merged.  With a non-empty codebook the loop asks the `TransitionValidator` about the tentative
+merged delta of each candidate in turn; the verdict is an INPUT BIT of the candidate here (the validator is a
+function of embeddings the model does not carry).  Branch by branch:
+`mark_committing` fails → skip; validator consulted and says invalid → `mark_failed`, skip (nothing of the
+candidate is kept); otherwise operations appended, delta merged, workspace recorded as merged. -/
+
+structure Cand where
+  id : Nat
+  ops : List Tx
+  dir : Nat
+  /-- `mark_committing()` succeeds (the workspace is still `Active` when the loop reaches it) -/
+  markable : Bool
+  /-- `validate_transition("chain", original, tentative).is_valid` -/
+  valid : Bool
+deriving DecidableEq, Repr
+
+/-- the loop variables of `find_and_merge_orthogonal` (+ the ids marked `Failed`) -/
+structure MergeAcc where
+  /-- `all_operations` -/
+  ops : List Tx
+  /-- the directions summed into `delta` -/
+  dirs : List Nat
+  /-- `merged_workspaces` -/
+  merged : List Nat
+  /-- candidates marked `Failed` by the loop (they stay in `tx_manager.active`) -/
+  failed : List Nat
+deriving DecidableEq, Repr
+
+/-- one iteration; `validate` = `!codebook_manager.global().is_empty()` -/
+def mergeStep (validate : Bool) (a : MergeAcc) (c : Cand) : MergeAcc :=
+  if !c.markable then a
+  else if validate && !c.valid then { a with failed := a.failed ++ [c.id] }
+  else { a with ops := a.ops ++ c.ops, dirs := a.dirs ++ [c.dir], merged := a.merged ++ [c.id] }
+
+def mergeInit (own : List Tx) (dir : Nat) : MergeAcc := { ops := own, dirs := [dir], merged := [], failed := [] }
+
+/-- `find_and_merge_orthogonal(workspace, delta)` over the (already truncated) candidate list -/
+def mergeLoop (validate : Bool) (own : List Tx) (dir : Nat) (cs : List Cand) : MergeAcc :=
+  cs.foldl (mergeStep validate) (mergeInit own dir)
+
+/-- the candidate ends up in the block -/
+def Cand.accepted (validate : Bool) (c : Cand) : Bool := c.markable && !(validate && !c.valid)
+/-- the candidate is marked `Failed` by the loop -/
+def Cand.rejected (validate : Bool) (c : Cand) : Bool := c.markable && (validate && !c.valid)
+
+/-- variant (seeded mistake): the candidate's operations are appended next to the tentative delta merge, BEFORE the
+    validator is consulted; a rejected candidate is still marked `Failed` and skipped -/
+def mergeStepAppendBeforeValidation (validate : Bool) (a : MergeAcc) (c : Cand) : MergeAcc :=
+  if !c.markable then a
+  else
+    let a1 := { a with ops := a.ops ++ c.ops }
+    if validate && !c.valid then { a1 with failed := a1.failed ++ [c.id] }
+    else { a1 with dirs := a1.dirs ++ [c.dir], merged := a1.merged ++ [c.id] }
+
+def mergeLoopAppendBeforeValidation (validate : Bool) (own : List Tx) (dir : Nat) (cs : List Cand) : MergeAcc :=
+  cs.foldl (mergeStepAppendBeforeValidation validate) (mergeInit own dir)
+
+/-- the candidate a workspace of the node is, given the verdict the validator will give it -/
+def Cand.ofWs (valid : Nat → Bool) (w : Ws) : Cand :=
+  { id := w.id, ops := w.ops, dir := w.dir, markable := w.state = .active, valid := valid w.id }
+
 /-! ### the driver's concrete crypto: injective encodings -/
 
 def drvCrypto : Crypto :=
